@@ -46,10 +46,17 @@ fn run_leaf(cap: usize, cycles: &[usize], prefix: &[usize]) -> Leaf {
             }
             let mut got = Vec::new();
             let mut rate = -1.0;
-            res.consume(|d| {
+            res.consume(|mut d| {
                 rate = d.sample_rate();
                 let l = d.len();
-                let v: Vec<f64> = d.collect();
+                // the reported rate does not depend on when it is asked: before, in the middle of, or after iterating
+                let mut v: Vec<f64> = Vec::new();
+                while let Some(x) = d.next() {
+                    v.push(x);
+                    let r = d.sample_rate();
+                    assert!(r == rate, "sig=sample-rate-wrong: sample_rate() changed from {} to {} after {} of {} values were taken from the drain", rate, r, v.len(), l);
+                    assert_eq!(d.len(), l - v.len(), "Drain::len() disagrees with the number of values still to be yielded");
+                }
                 assert_eq!(l, v.len(), "Drain::len() disagrees with the number of values yielded");
                 got = v;
             });
@@ -76,7 +83,7 @@ fn e3_tree(ctx: &Ctx, res: &mut PartResult, caps: &[usize], extra: usize) {
         for n1 in 0..=cap + extra {
             for n2 in [0usize, 1, cap + 1] {
                 if ctx.over_budget() {
-                    res.cap_hit = Some("wall budget".into());
+                    res.cap_hit = Some("budget (cpu time of the part)".into());
                     res.exhaustive = false;
                     return;
                 }
@@ -117,7 +124,7 @@ fn check_config(res: &mut PartResult, states: &mut vseq::States, cap: usize, cyc
     for l in &leaves {
         states.add(&format!("{}/{:?}/{:?}/{:?}", cap, cycles, l.cycles, l.panic.is_some()));
         if let Some(p) = &l.panic {
-            let sig = if p.contains("empty range") { "push-panics-capacity-zero" } else { "reservoir-panic" };
+            let sig = if p.contains("empty range") { "push-panics-capacity-zero" } else if p.contains("sig=sample-rate-wrong") { "sample-rate-wrong" } else { "reservoir-panic" };
             res.violation(sig, format!("capacity {} pushes/cycle {:?}: panic: {}", cap, cycles, p), cfg(l));
             continue;
         }
